@@ -1,1 +1,55 @@
-fn main() { let _ = vcommon::Ctx::from_args(); }
+mod ast;
+mod c22;
+mod c23;
+mod c24;
+mod c28;
+mod c30;
+mod exec;
+mod pgen;
+mod interp;
+mod vmrun;
+mod walk;
+
+fn main() {
+    let ctx = vcommon::Ctx::from_args();
+    ctx.watchdog(ctx.pick(900, 7200));
+    match ctx.prop.as_str() {
+        "C22" => c22::run(&ctx),
+        "C23" => c23::run(&ctx),
+        "C24" => c24::run(&ctx),
+        "C28" => c28::run(&ctx),
+        "C30" => c30::run(&ctx),
+        "SHOW" => {
+            // developer aid: print a few generated programs
+            let n: usize = std::env::var("N").ok().and_then(|s| s.parse().ok()).unwrap_or(3);
+            let mut rng = vcommon::rng_for(ctx.seed, "show");
+            use proptest::strategy::{Strategy, ValueTree};
+            let mut runner = proptest::test_runner::TestRunner::new_with_rng(Default::default(), rng.clone());
+            let _ = &mut rng;
+            let cfg = pgen::Cfg { depth: 4, poison: std::env::var("POISON").is_ok(), commands: std::env::var("CMDS").is_ok(), never: true, misplace: 0, max_funcs: 3, empty_structs: false };
+            let st = c22::strategy(cfg, 600, 2);
+            for _ in 0..n {
+                let c = st.new_tree(&mut runner).unwrap().current();
+                if std::env::var("WHY").is_ok() {
+                    let text = ast::print_prog(&c.prog);
+                    let Ok(m) = vmrun::compile_module(&text) else { continue };
+                    let machine = vmrun::machine_of(m);
+                    for (ci, cmd) in c.prog.commands.iter().enumerate() {
+                        for vals in &c.inputs.cmd_fields[ci] {
+                            let mut io = vmrun::io_with_facts(&c.prog, &c.inputs);
+                            let mut rs = machine.create_run_state(&mut io, vmrun::policy_ctx(vmrun::ident_of(&cmd.name)));
+                            let r = rs.call_command_policy(vmrun::this_struct(&c.prog, cmd, vals), vmrun::envelope());
+                            println!("{r:?} :: {}", rs.source_location().unwrap_or_default().replace('\n', " ").chars().take(150).collect::<String>());
+                        }
+                    }
+                    continue;
+                }
+                println!("{}\n// inputs: {:?}\n// ------", ast::print_prog(&c.prog), c.inputs);
+            }
+        }
+        p => {
+            println!("INCONCLUSIVE vh-pol does not serve {p}");
+            std::process::exit(2);
+        }
+    }
+}
